@@ -11,7 +11,7 @@ VARS = {'x': Fraction(2), 'y': Fraction(3), 'z': Fraction(5, 2), 'a_1': Fraction
         'q^{2}': Fraction(3, 4), 'k': Fraction(5)}
 SUFS = {'%': Fraction(1, 100), 'k': Fraction(1000), 'M': Fraction(10 ** 6), 'm': Fraction(1, 1000), 'u': Fraction(1, 10 ** 6)}
 FUNCS = {'f1': 1, 'g2': 2, 'h3': 3}
-NUMS = ['1', '2', '3', '7', '10', '0', '2.5', '.5', '3.', '0.25', '1.50', '2e3', '1E-2', '4e+1', '12E0', '5e-1', '1.5e2', '.5E1', '00.5']
+NUMS = ['1', '2', '3', '7', '10', '0', '2.5', '.5', '3.', '0.25', '1.50', '2e3', '25E-2', '4e+1', '12E0', '5e-1', '1.5e2', '.5E1', '00.5']   # all exactly representable as doubles
 
 
 class OOM(Exception):
@@ -30,7 +30,29 @@ def num_value(text):
     return m * Fraction(10) ** int(ex or '0')
 
 
+TRACK = {'max': Fraction(0), 'min': None}
+
+
+def track_reset():
+    TRACK['max'] = Fraction(0)
+    TRACK['min'] = None
+
+
+def _t(v):
+    a = abs(v)
+    if a > TRACK['max']:
+        TRACK['max'] = a
+    if a != 0 and (TRACK['min'] is None or a < TRACK['min']):
+        TRACK['min'] = a
+    return v
+
+
 def value(e, env=VARS, sufs=SUFS):
+    """textbook value; every intermediate magnitude is recorded in TRACK (floats overflow where rationals do not)"""
+    return _t(_value(e, env, sufs))
+
+
+def _value(e, env, sufs):
     k = e[0]
     if k == 'grp':
         return value(e[1], env, sufs)
@@ -142,7 +164,7 @@ def gen_tree(rng, depth=4, arrays=False, names=None, funcs=True, sufs=True):
     if depth <= 0 or r < 0.22:
         if rng.random() < 0.5:
             return ('var', rng.choice(names))
-        suf = rng.choice(list(SUFS)) if (sufs and rng.random() < 0.2) else None
+        suf = rng.choice(['k', 'M']) if (sufs and rng.random() < 0.2) else None      # integer multipliers only inside compound expressions
         return ('num', rng.choice(NUMS), suf)
     d = depth - 1
     g = lambda: gen_tree(rng, d, arrays, names, funcs, sufs)
